@@ -95,9 +95,11 @@ package buffer
 //@   havoc c
 //@   ensures implies(isnil(err), n == 4)
 
+// lastword(r): the value the last successful ReadUint64 on r decoded (a ghost of the reader, set here)
 //@ afunc ReadUint64
 //@   property C08
 //@   havoc c
+//@   gset lastword(r) = *c
 //@   ensures implies(isnil(err), n == 8)
 
 // a byte slice is read completely or an error is returned, whatever the chunking of the transport
